@@ -40,9 +40,10 @@ Definition bridge_ok n ch skip hb (b : bridge) : Prop :=
     b_i b = seq i0 len /\ b_j b = seq j0 len /\
     forall k, k < len -> good_pair n ch skip hb (b_type b) (i0 + k) (partner (b_type b) j0 len k).
 
+(* position k of record b pairs residue i with residue j *)
 Definition holds_pair (b : bridge) (i j : nat) : Prop :=
-  exists i0 j0 len k, b_i b = seq i0 len /\ b_j b = seq j0 len /\ k < len /\
-    i = i0 + k /\ j = partner (b_type b) j0 len k.
+  exists k, k < List.length (b_i b) /\ i = front (b_i b) + k /\
+            j = partner (b_type b) (front (b_j b)) (List.length (b_i b)) k.
 
 Lemma btype_eqb_eq : forall a b, btype_eqb a b = true <-> a = b.
 Proof. intros a b; split; [destruct a, b; cbn; congruence | intros ->; destruct b; reflexivity]. Qed.
@@ -222,3 +223,107 @@ Section Sheets.
         intros (H & _). apply B in H. discriminate.
   Qed.
 End Sheets.
+
+(* ------------------------------------------------------------------ completeness of the record list *)
+(* every residue pair that the double loop visits, that passes the bridge test and has no incomplete
+   member, sits in some record of its type, at matching positions *)
+Section Complete.
+  Variables (n : nat) (ch : list nat) (skip : list bool) (hb : hbtable).
+  Notation ok := (bridge_ok n ch skip hb).
+
+  Definition qualifies (ij : nat * nat) : bool :=
+    negb (btype_eqb (residue_test_bridge (snd ij) (fst ij) n ch hb) BRIDGE_NONE ||
+          skip_at skip (fst ij) || skip_at skip (snd ij)).
+
+  Definition held (bs : list bridge) (ij : nat * nat) : Prop :=
+    exists b, In b bs /\ b_type b = residue_test_bridge (snd ij) (fst ij) n ch hb /\
+              holds_pair b (fst ij) (snd ij).
+
+  Lemma extend_complete : forall t i j bs bs', Forall ok bs -> extend_bridges t i j bs = Some bs' ->
+    (forall b, In b bs -> exists b', In b' bs' /\ b_type b' = b_type b /\
+                                    forall x y, holds_pair b x y -> holds_pair b' x y) /\
+    (exists b', In b' bs' /\ b_type b' = t /\ holds_pair b' i j).
+  Proof.
+    intros t i j bs. induction bs as [|b rest IH]; intros bs' Hall E; cbn in E; [discriminate|].
+    apply Forall_cons_iff in Hall as (Hb & Hrest).
+    assert (Hrec : option_map (cons b) (extend_bridges t i j rest) = Some bs' ->
+      (forall b0, In b0 (b :: rest) -> exists b', In b' bs' /\ b_type b' = b_type b0 /\
+                                    forall x y, holds_pair b0 x y -> holds_pair b' x y) /\
+      (exists b', In b' bs' /\ b_type b' = t /\ holds_pair b' i j)).
+    { destruct (extend_bridges t i j rest) as [r'|] eqn:Er; cbn; [|discriminate].
+      intros [= <-]. destruct (IH r' Hrest eq_refl) as (H1 & b' & Hb' & Ht & Hh). split.
+      - intros b0 [<- | Hin]; [exists b; cbn; auto|].
+        destruct (H1 b0 Hin) as (b1 & Hb1 & R). exists b1. cbn. auto.
+      - exists b'. cbn. auto. }
+    destruct (btype_eqb t (b_type b) && (i =? back (b_i b) + 1)) eqn:C1; [|auto].
+    apply andb_true_iff in C1 as (Ety & Ei). apply btype_eqb_eq in Ety. apply Nat.eqb_eq in Ei.
+    destruct Hb as (i0 & j0 & len & Hlen & Hnn & Hbi & Hbj & Hp).
+    destruct len as [|len]; [lia|].
+    rewrite Hbi, back_seq in Ei.
+    assert (Keep : forall bnew, b_type bnew = b_type b ->
+              (forall x y, holds_pair b x y -> holds_pair bnew x y) -> holds_pair bnew i j ->
+              (forall b0, In b0 (b :: rest) -> exists b', In b' (bnew :: rest) /\ b_type b' = b_type b0 /\
+                                    forall x y, holds_pair b0 x y -> holds_pair b' x y) /\
+              (exists b', In b' (bnew :: rest) /\ b_type b' = t /\ holds_pair b' i j)).
+    { intros bnew Ht Hk Hn. split.
+      - intros b0 [<- | Hin]; [exists bnew; cbn; auto | exists b0; cbn; auto].
+      - exists bnew. cbn. split; [auto|]. split; [congruence | assumption]. }
+    destruct (btype_eqb t BRIDGE_PARALLEL && (back (b_j b) + 1 =? j)) eqn:C2.
+    - apply andb_true_iff in C2 as (Ep & Ej). apply btype_eqb_eq in Ep. apply Nat.eqb_eq in Ej.
+      rewrite Hbj, back_seq in Ej. injection E as <-.
+      assert (Ei' : i = i0 + S len) by lia. assert (Ej' : j = j0 + S len) by lia. clear Ei Ej. subst i j.
+      apply Keep; [reflexivity | |].
+      + intros x y (k & Hk & Hx & Hy). exists k. cbn [b_type b_i b_j].
+        rewrite Hbi, Hbj in *. rewrite <- Ety, Ep in *. cbn [partner] in *.
+        rewrite !seq_snoc. rewrite seq_length in *. rewrite !front_seq in *.
+        repeat split; [lia | assumption | assumption].
+      + exists (S len). cbn [b_type b_i b_j]. rewrite Hbi, Hbj. rewrite <- Ety, Ep. cbn [partner].
+        rewrite !seq_snoc, seq_length, !front_seq. repeat split; lia.
+    - destruct (btype_eqb t BRIDGE_ANTIPARALLEL && (front (b_j b) =? j + 1)) eqn:C3; [|auto].
+      apply andb_true_iff in C3 as (Ea & Ej). apply btype_eqb_eq in Ea. apply Nat.eqb_eq in Ej.
+      rewrite Hbj, front_seq in Ej. injection E as <-.
+      assert (Ei' : i = i0 + S len) by lia. clear Ei. subst i.
+      apply Keep; [reflexivity | |].
+      + intros x y (k & Hk & Hx & Hy). exists k. cbn [b_type b_i b_j].
+        rewrite Hbi, Hbj in *. rewrite <- Ety, Ea in *. cbn [partner] in *.
+        rewrite seq_snoc. rewrite seq_length in *. rewrite !front_seq in *. cbn [front hd].
+        repeat split; [lia | assumption | lia].
+      + exists (S len). cbn [b_type b_i b_j]. rewrite Hbi. rewrite <- Ety, Ea. cbn [partner].
+        rewrite seq_snoc, seq_length, front_seq. cbn [front hd]. repeat split; lia.
+  Qed.
+
+  Lemma bridge_step_held : forall bs x, Forall ok bs ->
+    (forall ij, held bs ij -> held (bridge_step n ch skip hb bs x) ij) /\
+    (qualifies x = true -> held (bridge_step n ch skip hb bs x) x).
+  Proof.
+    intros bs (i, j) Hall. unfold bridge_step, qualifies. cbn [fst snd].
+    destruct (btype_eqb (residue_test_bridge j i n ch hb) BRIDGE_NONE || skip_at skip i || skip_at skip j) eqn:Q.
+    - split; [auto | discriminate].
+    - destruct (extend_bridges (residue_test_bridge j i n ch hb) i j bs) as [bs'|] eqn:E.
+      + destruct (extend_complete _ i j bs bs' Hall E) as (H1 & b' & Hb' & Ht & Hh). split.
+        * intros ij (b & Hb & Tb & Hp). destruct (H1 b Hb) as (b1 & Hb1 & T1 & K).
+          exists b1. repeat split; [assumption | congruence | now apply K].
+        * intros _. exists b'. cbn [fst snd]. auto.
+      + split.
+        * intros ij (b & Hb & R). exists b. split; [apply in_or_app; now left | exact R].
+        * intros _. eexists. split; [apply in_or_app; right; now left|]. cbn [fst snd b_type b_i b_j].
+          split; [reflexivity|]. exists 0. unfold front. cbn [List.length hd].
+          cbn [b_type b_i b_j Datatypes.length hd]. split; [lia|]. split; [lia|].
+          destruct (residue_test_bridge j i n ch hb); cbn [partner]; lia.
+  Qed.
+
+  Lemma fold_held : forall l bs ij, Forall ok bs ->
+    held bs ij \/ (In ij l /\ qualifies ij = true) ->
+    held (fold_left (bridge_step n ch skip hb) l bs) ij.
+  Proof.
+    induction l as [|x l IH]; intros bs ij Hall H; cbn [fold_left].
+    - destruct H as [H | (H & _)]; [assumption | destruct H].
+    - destruct (bridge_step_held bs x Hall) as (K & Knew).
+      apply IH; [now apply bridge_step_ok|].
+      destruct H as [H | ([-> | Hin] & Q)]; [left; now apply K | left; now apply Knew | right; auto].
+  Qed.
+
+  Lemma initial_bridges_complete : forall ij, In ij (bridge_pairs n) -> qualifies ij = true ->
+    held (initial_bridges n ch skip hb) ij.
+  Proof. intros ij Hin Q. unfold initial_bridges. apply fold_held; [constructor | right; auto]. Qed.
+End Complete.
